@@ -26,7 +26,7 @@ def generate(tier, seed):
         for rep in range(2 if tier == "quick" else 8):
             cases.append({"kind": "file", "file": name, "seed": "%d:%s:%d" % (seed, name, rep),
                           "cost": 80 if name in sources.PROTEINS else 4})
-    n = 450 if tier == "quick" else 3000
+    n = 450 if tier == "quick" else 15000
     for k in range(n):
         cases.append({"kind": "cutout", "seed": "%d:cut:%d" % (seed, k), "cost": 10})
     # the grids a user is most likely to type, on one small structure each
